@@ -28,6 +28,9 @@ import (
 //   engine_test.go the same gates as the REST engine wires them for 1-4 route groups on one server
 //                 (rest.WithJwt / WithJwtTransition / WithSignature, Server.Use, callbacks); the groups'
 //                 jwt settings are drawn independently, partly from a shared pool of secrets
+//   extremes_test.go extreme values of the content-security timestamp and of the JWT time claims (far from the
+//                 clock, at the wrap-around points of fixed-width arithmetic, beyond int64, no numbers at
+//                 all) and the big-number arithmetic of the independent verifiers
 //   handler_test.go how the protected handlers treat the request body (delayed / chunked / partial
 //                 reads, closes) and the per-request body oracle; bursts of overlapping requests
 //
@@ -112,6 +115,33 @@ func (p *prng) text(n int) string {
 }
 
 func seedOf(t *simrt.Tape) uint64 { return t.Draw(1 << 32) }
+
+// secret forms: 0 the usual short printable secret; very long (longer than the block of every HMAC hash, so
+// the key gets hashed first); binary (NUL, high bytes, invalid UTF-8); a single character
+const (
+	sfUsual = iota
+	sfLong
+	sfBinary
+	sfTiny
+	sfCount
+)
+
+var sfNames = [...]string{"usual", "very-long", "binary", "tiny"}
+
+// secretOf renders a secret of the given form; prefix keeps secrets of one run distinct.
+func secretOf(g *prng, form int, prefix string) string {
+	switch form {
+	case sfLong:
+		return prefix + g.text(140+int(g.next()%260))
+	case sfBinary:
+		b := g.bytes(8 + int(g.next()%40))
+		b[0], b[len(b)-1] = 0, 0xff
+		return prefix + string(b)
+	case sfTiny:
+		return prefix[:1]
+	}
+	return prefix + g.text(4+int(g.next()%30))
+}
 
 // weighted draws an index with the given weights; index 0 must be the simplest choice.
 func weighted(t *simrt.Tape, w ...int) int {
